@@ -59,7 +59,9 @@ Trs == /\ pc = "orient" /\ Len(first) = Len(base)
              ct \in { [has |-> FALSE, tr |-> NoTr] } \cup { [has |-> TRUE, tr |-> t] : t \in TrSet },
              lo \in BOOLEAN, cp \in BOOLEAN,
              lt \in { [has |-> FALSE, tr |-> NoTr] } \cup { [has |-> TRUE, tr |-> t] : t \in TrSet } :
-            ftr' = ft /\ ctr' = ct /\ latopt' = lo /\ compl' = cp /\ ltr' = lt
+            (* a FILL transformation of the whole lattice can only be written on the form FILL=n (completed by --lattice) *)
+            /\ (ft.has => lo)
+            /\ ftr' = ft /\ ctr' = ct /\ latopt' = lo /\ compl' = cp /\ ltr' = lt
        /\ pc' = "fill" /\ UNCHANGED <<base, c0, first, ranges, arr, flip>>
 Size == LET RECURSIVE Pr(_) Pr(d) == IF d = 0 THEN 1 ELSE (ranges[d][2] - ranges[d][1] + 1) * Pr(d - 1) IN Pr(Len(ranges))
 Fill == /\ pc = "fill" /\ Len(arr) < Size
